@@ -3,6 +3,7 @@ package values
 import (
 	"encoding/json"
 	"fmt"
+	"math"
 	"reflect"
 	"strconv"
 	"time"
@@ -209,6 +210,10 @@ func Convert(value any, typ reflect.Type) (any, error) { //nolint: gocyclo
 			}
 			return result.Interface(), nil
 		} else if r, ok := value.(Range); ok {
+			if r.Len() > math.MaxInt32 {
+				// more elements than any array filter can sensibly materialise (make would panic or exhaust memory)
+				return nil, typeErrorf("range of %d elements is too large to convert to an array", r.Len())
+			}
 			return r.AsArray(), nil
 		}
 		switch rv.Kind() {
